@@ -3,6 +3,7 @@ mod mon;
 mod pipe;
 mod pool;
 mod props;
+mod reflex;
 mod run;
 mod store;
 mod util;
